@@ -27,13 +27,13 @@ ASSUMPTIONS = [
 ]
 TIMEOUT = {"quick": 400, "thorough": 2400}
 REQUIRED = {"stat_tests": 100, "tables:nonuniform": 40, "tables:descending_cells": 40, "post:get_conditionals": 30,
-            "conditionals_checked": 80, "cases:correlated": 15, "conditional_sample_calls": 10}
+            "conditionals_checked": 80, "cases:correlated": 8, "conditional_sample_calls": 10}
 
 
 def jobs(tier, seed):
     n_jobs = 16 if tier == "quick" else 32
-    return [{"name": f"cond-{j}", "seed": seed, "j": j, "n_tables": 8 if tier == "quick" else 60,
-             "n_post": 4 if tier == "quick" else 30, "n_draws": 20000} for j in range(n_jobs)]
+    return [{"name": f"cond-{j}", "seed": seed, "j": j, "n_tables": 16 if tier == "quick" else 80,
+             "n_post": 8 if tier == "quick" else 40, "n_draws": 20000} for j in range(n_jobs)]
 
 
 # ------------------------------------------------------------------ exact CDF of a piecewise-linear table
